@@ -1,5 +1,8 @@
 """Registry entries of the components `stream` (C19) and `auth` (C20). Format: checks/registry.py."""
 
+_PAIRS = 380736  # thorough tier only
+_ROWS = 24768   # size of the complete table (printed by `hqv auth gen --count`; every case header carries rows=<N>)
+
 PROPS = {
     "C19": {
         "module": "HqModel.Props.C19",
@@ -8,8 +11,9 @@ PROPS = {
             "HqModel.C19.varint_prefix_free",
             "HqModel.C19.hdr_roundtrip",
             "HqModel.C19.hdr_prefix_free",
-            # "HqModel.C19.c19_readback",
-            # "HqModel.C19.c19_torn",
+            "HqModel.C19.scanner_any_prefix",
+            "HqModel.C19.c19_readback",
+            "HqModel.C19.c19_torn",
         ],
         "parts": [{
             "component": "stream", "driver": "hqm-stream",
@@ -17,7 +21,7 @@ PROPS = {
             # bytes, finished flag, superseded instances, summary, open result)
             "tags": ["file", "open", "idx", "cat", "fin", "sup", "sum"],
             "clauses": ["c19."],
-            "quick": {"cases": 10, "shards": 16, "extra": []},
+            "quick": {"cases": 30, "shards": 16, "extra": []},
             "thorough": {"cases": 40, "shards": 16, "extra": []},
         }],
         "assumptions": [
@@ -45,5 +49,68 @@ PROPS = {
         "rule": "one evaluation = one operation (write a file with the real writer | cut a file | open the directory with the "
                 "real OutputLog) executed on the real code and on the Lean model, all out lines compared; a case is distinct "
                 "by the hash of its operation sequence and non-trivial when it has >= 2 operations",
+    },
+    "C20": {
+        "module": "HqModel.Props.C20",
+        "theorems": [
+            "HqModel.C20.c20_complete",
+            "HqModel.C20.c20_mismatch",
+            "HqModel.C20.c20_auth",
+            "HqModel.C20.c20_no_reflection",
+            "HqModel.C20.c20_role_chal_inj",
+            "HqModel.C20.c20_keyed_accepts_only_answer",
+            "HqModel.C20.c20_accept_request_checked",
+            "HqModel.C20.c20_keyless",
+            "HqModel.C20.c20_nonvacuous",
+        ],
+        "parts": [{
+            "component": "auth", "driver": "hqm-auth",
+            # `res`: accept/refuse of both ends; `sent`: kind (noauth/enc/error/none) of the response each end sent
+            "tags": ["res", "sent"],
+            "clauses": ["c20."],
+            # the harness IGNORES --cases: it always enumerates the whole table and splits it by row index mod shards
+            "quick":    {"cases": _ROWS // 8 + 1,  "shards": 8,  "extra": []},
+            # thorough = the same complete table + the pairs table (every two single-message actions on two different
+            # messages, 380736 rows, OUTSIDE C20's quantifier: correspondence + the any-adversary clauses only)
+            "thorough": {"cases": (_ROWS + _PAIRS) // 16 + 1, "shards": 16, "extra": []},
+        }],
+        "assumptions": [
+            "Symbolic (Dolev-Yao) cryptography: orion's XChaCha20-Poly1305 secret stream is an unforgeable AEAD - a chunk opens "
+            "under (key, stream nonce) only if it was sealed with exactly that key and nonce (Lean: openC_eq_some); this includes "
+            "chunk-position and tag binding, i.e. a later data chunk of a connection cannot be replayed as the first chunk "
+            "(handshake answer) of a stream, and honest endpoints seal handshake payloads only as first chunk with tag Message.",
+            "secure_rand_bytes returns 16 bytes that are fresh and unpredictable: a new challenge differs from every challenge "
+            "generated before and from every challenge that occurred in any request seen before (side condition of Action.start).",
+            "Keys of honest endpoints are not known to the adversary (k not in adv); SecretKey::from_slice / the access file "
+            "handling that produces the key is outside the model.",
+            "bincode encoding and length-delimited framing are not modelled: the symbolic adversary acts on message fields; "
+            "undecodable frames and I/O errors are treated like a message that never arrives (receiver refuses).",
+            "Timeouts are not modelled (a dropped message = the receiver never finishes = refuse); the harness closes the pipe "
+            "so that the real code sees EOF instead of waiting 15 s (virtual clock as a safety net).",
+            "The correspondence table fixes two keys, the four declared role pairs, protocol numbers {0,1} and ONE substitution per "
+            "session; the theorems themselves are unbounded (any number of sessions, interleavings and adversary steps).",
+            "Finding outside the quantifier (documented, theorem c20_protocol_not_sealed, harness mode --double-proto): the protocol "
+            "number and the requester's role field are not inside the seal; rewriting the protocol field of BOTH requests makes "
+            "endpoints with different protocol numbers accept each other.",
+        ],
+        "trusted_base": [
+            "orion 0.17 (XChaCha20-Poly1305 secretstream, secure_rand_bytes), bincode 1.3 fixint encoding, tokio-util "
+            "LengthDelimitedCodec, tokio duplex pipes + paused clock (harness only)",
+            "harness mirror structs of AuthenticationRequest/Response (same serde shape; every genuine frame is round-tripped "
+            "through them on every run, clause c20.mirror)",
+        ],
+        "rule": ("EXHAUSTIVE finite table (every case header: exhaustive=1 rows=%d): key in {none,k1,k2}^2 x the 4 declared "
+                 "(my_role,peer_role) pairs per end (4x4) x protocol {0,1}^2 x adversary action in {none} + for message i in 1..4: "
+                 "drop, reflect, earlier-session replay, parallel-session (oracle) substitute + field-modified copies (requests: "
+                 "protocol flipped, role := each other role, challenge bit flip, challenge truncated to 15 / extended to 17, mode "
+                 "swapped; responses: ciphertext bit flip / truncation, nonce bit flip / truncation, replaced by NoAuth, replaced "
+                 "by Error); statically non-applicable request "
+                 "modifications (challenge edits of a NoAuth request) are not rows. One case = one row = two evaluations: `op base` "
+                 "(earlier undisturbed session of the two configurations, real code vs model) and `op adv` (main session under the "
+                 "action, real do_authentication on both ends vs model); outputs compared: accept/refuse of both ends and the kind "
+                 "of response each end sent. The table is complete in both tiers; --cases is ignored by the generator. The thorough "
+                 "tier adds the pairs table (table=pairs rows=%d: all pairs of single-message actions on different messages; only "
+                 "the correspondence and the clauses valid for any adversary - c20.agreement, c20.sound/accepted-after-bad-request - "
+                 "are evaluated there)." % (_ROWS, _PAIRS)),
     },
 }
